@@ -105,6 +105,25 @@ def tensor (a : Args) : String :=
   let t := (Tab.tensor2 t1 t2).norm
   s!"ok {showTab t} valid={b01 t.isSymplectic}"
 
+/-- `tensor([f0, f1, …])` with `k` factors (args prefixed `f0`, `f1`, …) -/
+def tensorN (a : Args) : String :=
+  let k := getNat a "k"
+  let fs := (List.range k).map fun i => tabOf a s!"f{i}"
+  match fs with
+  | [] => "err value"
+  | t0 :: rest =>
+    let t := (Tab.tensorList t0 rest).norm
+    s!"ok {showTab t} valid={b01 t.isSymplectic}"
+
+/-- `trace_out_qubits(positions)`: `pos=` list of positions, `os=` outcome bits -/
+def traceOut (a : Args) : String :=
+  let t := tabOf a
+  let pos := natsOf '.' (get a "pos")
+  let os := (get a "os").toList.map (fun c => decide (c = '1'))
+  match t.traceOutQubits pos os with
+  | .ok t' => let t' := t'.norm; s!"ok {showTab t'} valid={b01 t'.isSymplectic}"
+  | .error e => s!"err {e}"
+
 def mk (a : Args) : String :=
   let n := getNat a "n"
   let t := match get a "kind" with
@@ -117,6 +136,8 @@ def dispatch (cmd : String) (a : Args) : Option String :=
   match cmd with
   | "tab.run" => some (run a)
   | "tab.tensor" => some (tensor a)
+  | "tab.tensorn" => some (tensorN a)
+  | "tab.traceout" => some (traceOut a)
   | "tab.mk" => some (mk a)
   | "tab.valid" => some (valid a)
   | _ => none
